@@ -1,1 +1,305 @@
-//! c18 — harnesses not written yet.
+//! C18 — particle swarm keeps velocities clamped and best memories consistent.
+//! Code: mahf::components::swarm::pso::{ParticleVelocitiesUpdate::{from_params,init,execute},ParticleVelocitiesInit::from_params,PersonalBestParticlesUpdate::execute,GlobalBestParticleUpdate::{init,execute},InertiaWeight,BestParticles,BestParticle,ParticleVelocities}
+//! Code: mahf::components::mapping::common::Linear::{map,execute}, mahf::components::mapping::mapping, mahf::state::common::Progress
+//! Out: swarms larger than 2, dimension above 1; magnitudes above 2^20 in the velocity step; the full three-product velocity formula is thorough-tier (three symbolic 64-bit multipliers: 12 min of SAT in the probe); that the shipped template passes (start, end) in that order is template wiring (C16)
+//! Assume: inductive one-step from an arbitrary swarm state of the stated shape; SymRng draws u in [0,1) as produced by rand's f64 sampler
+use mahf::components::mapping::{Linear, Mapping};
+use mahf::components::swarm::pso::{
+    BestParticle, BestParticles, GlobalBestParticleUpdate, InertiaWeight, ParticleVelocities, ParticleVelocitiesInit,
+    ParticleVelocitiesUpdate, PersonalBestParticlesUpdate,
+};
+use mahf::components::Component;
+use mahf::identifier::Global;
+use mahf::lens::ValueOf;
+use mahf::state::common::{Iterations, Populations, Progress};
+use mahf::{Individual, State};
+
+use crate::problems::{obj, RealP, TagP};
+use crate::rng::{draws, sym_random};
+use crate::sym;
+
+type PVU = ParticleVelocitiesUpdate<Global>;
+
+/// @h tier=quick bound="every f64 weight, c1, c2, v_max: constructors accept exactly the documented ranges"
+#[cfg_attr(kani, kani::proof)]
+#[cfg_attr(kani, kani::unwind(3))]
+pub fn h_c18_params() {
+    let (w, c1, c2, vm) = (sym::f64(), sym::f64(), sym::f64(), sym::f64());
+    let r = PVU::from_params(w, c1, c2, vm);
+    assert!(r.is_ok() == (w >= 0.0 && c1 >= 0.0 && c2 >= 0.0 && vm > 0.0), "velocity update accepts exactly weight, c1, c2 >= 0 and v_max > 0");
+    let r2 = ParticleVelocitiesInit::<Global>::from_params(vm);
+    assert!(r2.is_ok() == (vm > 0.0), "velocity init accepts exactly v_max > 0");
+    vcover!(r.is_ok(), "accepted");
+    std::mem::forget((r, r2));
+}
+
+// ---- inertia weight: linear interpolation at the loop's progress ---------------------------------------------
+
+fn linear_map(start: f64, end: f64) {
+    let p = sym::f64();
+    sym::assume(p >= 0.0 && p <= 1.0);
+    let l = Linear::from_params(start, end, ValueOf::<Progress<ValueOf<Iterations>>>::new(), ValueOf::<InertiaWeight<PVU>>::new());
+    let mut rng = sym_random(0);
+    match Mapping::<TagP>::map(&l, p, &mut rng) {
+        Ok(w) => {
+            assert!(w.to_bits() == ((end - start) * p + start).to_bits(), "the weight is the linear interpolation between start and end at the given progress");
+            let (lo, hi) = if start < end { (start, end) } else { (end, start) };
+            assert!(w >= lo - 1e-12 && w <= hi + 1e-12, "and lies between the two configured weights");
+            if p == 0.0 {
+                assert!(w == start, "progress 0 gives the start weight");
+            }
+            if p == 1.0 {
+                assert!((w - end).abs() <= 1e-12, "progress 1 gives the end weight");
+            }
+        }
+        Err(_) => assert!(false, "linear mapping never errs"),
+    }
+    vcover!(p > 0.0 && p < 1.0, "inside");
+    std::mem::forget((l, rng));
+}
+/// @h tier=quick bound="decreasing schedule 0.9 -> 0.4, every progress in [0,1]" unwind=3 cost=2
+#[cfg_attr(kani, kani::proof)]
+#[cfg_attr(kani, kani::unwind(3))]
+pub fn h_c18_linear_decreasing() {
+    linear_map(0.9, 0.4)
+}
+/// @h tier=quick bound="increasing schedule 0.4 -> 0.9, every progress in [0,1]" unwind=3 cost=2
+#[cfg_attr(kani, kani::proof)]
+#[cfg_attr(kani, kani::unwind(3))]
+pub fn h_c18_linear_increasing() {
+    linear_map(0.4, 0.9)
+}
+
+/// @h tier=quick bound="through the component and its lenses: Progress -> InertiaWeight, schedule 0.4 -> 0.9, every progress in [0,1], any previous weight" unwind=4 cost=3
+#[cfg_attr(kani, kani::proof)]
+#[cfg_attr(kani, kani::unwind(4))]
+pub fn h_c18_linear_execute() {
+    let (p, w0) = (sym::f64(), sym::finite_f64());
+    sym::assume(p >= 0.0 && p <= 1.0);
+    let l = Linear::from_params(0.4, 0.9, ValueOf::<Progress<ValueOf<Iterations>>>::new(), ValueOf::<InertiaWeight<PVU>>::new());
+    let mut s: State<TagP> = State::new();
+    let mut pr = Progress::<ValueOf<Iterations>>::default();
+    *pr = p;
+    s.insert(pr);
+    s.insert(InertiaWeight::<PVU>::new(w0));
+    s.insert(sym_random(0));
+    assert!(Component::<TagP>::execute(&l, &TagP, &mut s).is_ok(), "the inertia-weight update succeeds");
+    let w = s.try_get_value::<InertiaWeight<PVU>>().ok();
+    assert!(w.map(f64::to_bits) == Some(((0.9 - 0.4) * p + 0.4).to_bits()), "after the update the stored weight is the configured interpolation at the current progress");
+    assert!(s.try_get_value::<Progress<ValueOf<Iterations>>>().ok() == Some(p), "progress is only read");
+    vcover!(true, "reached");
+    std::mem::forget((s, l));
+}
+
+// ---- best memories ------------------------------------------------------------------------------------------------------
+
+fn particle(x: f64, o: f64) -> Individual<RealP> {
+    Individual::new(vec![x], obj(o))
+}
+
+/// Personal bests never get worse and are the better of (old, current), per particle.
+fn personal_best(n: usize) {
+    let mut cur = Vec::with_capacity(2);
+    let mut old = Vec::with_capacity(2);
+    let (mut oc, mut oo, mut xc, mut xo) = ([0.0; 2], [0.0; 2], [0.0; 2], [0.0; 2]);
+    let mut i = 0;
+    while i < n {
+        oc[i] = sym::legal_f64();
+        oo[i] = sym::legal_f64();
+        xc[i] = sym::finite_f64();
+        xo[i] = sym::finite_f64();
+        cur.push(particle(xc[i], oc[i]));
+        old.push(particle(xo[i], oo[i]));
+        i += 1;
+    }
+    let mut pops = Populations::<RealP>::new();
+    pops.push(cur);
+    let mut s: State<RealP> = State::new();
+    s.insert(BestParticles::<RealP, Global>::new(old));
+    s.insert(pops);
+    let c = PersonalBestParticlesUpdate::<Global>::from_params();
+    assert!(Component::<RealP>::execute(&c, &RealP::d1(-1.0, 1.0), &mut s).is_ok(), "personal-best update succeeds");
+    {
+        let b = s.borrow::<BestParticles<RealP, Global>>();
+        assert!(b.len() == n, "one personal best per particle");
+        let mut i = 0;
+        while i < n {
+            let v = b[i].objective().value();
+            assert!(v <= oo[i], "a personal best never gets worse");
+            assert!(v <= oc[i], "and is at least as good as the particle's current position");
+            if oc[i] < oo[i] {
+                assert!(b[i].solution()[0].to_bits() == xc[i].to_bits() && v.to_bits() == oc[i].to_bits(), "a strictly better position replaces the personal best, with its value");
+            } else {
+                assert!(b[i].solution()[0].to_bits() == xo[i].to_bits() && v.to_bits() == oo[i].to_bits(), "otherwise the personal best is kept");
+            }
+            i += 1;
+        }
+        assert!(s.populations().current().len() == n, "the swarm itself is untouched");
+    }
+    vcover!(true, "reached");
+    std::mem::forget(s);
+}
+/// @h tier=quick bound="1 particle, dimension 1, all legal objectives" unwind=4 cost=5 mem=16 timeout=900
+#[cfg_attr(kani, kani::proof)]
+#[cfg_attr(kani, kani::unwind(4))]
+pub fn h_c18_personal_best_1() {
+    personal_best(1)
+}
+/// @h tier=thorough bound="2 particles, dimension 1, all legal objectives" unwind=5 cost=9 mem=28 timeout=2400
+#[cfg_attr(kani, kani::proof)]
+#[cfg_attr(kani, kani::unwind(5))]
+pub fn h_c18_personal_best_2() {
+    personal_best(2)
+}
+
+/// The global best equals the best personal best: updated from the current swarm it is replaced
+/// by any strictly better particle, however small the improvement.
+fn global_best(n: usize) {
+    let mut cur = Vec::with_capacity(2);
+    let mut oc = [0.0; 2];
+    let mut i = 0;
+    while i < n {
+        oc[i] = sym::legal_f64();
+        cur.push(particle(i as f64, oc[i]));
+        i += 1;
+    }
+    let og = sym::legal_f64();
+    let filled = sym::bool();
+    let mut pops = Populations::<RealP>::new();
+    pops.push(cur);
+    let mut s: State<RealP> = State::new();
+    s.insert(BestParticle::<RealP, Global>::new(if filled { Some(particle(9.0, og)) } else { None }));
+    s.insert(pops);
+    let c = GlobalBestParticleUpdate::<Global>::from_params();
+    assert!(Component::<RealP>::execute(&c, &RealP::d1(-1.0, 1.0), &mut s).is_ok(), "global-best update succeeds");
+    {
+        let b = s.borrow::<BestParticle<RealP, Global>>();
+        match &**b {
+            Some(g) => {
+                let v = g.objective().value();
+                let mut i = 0;
+                while i < n {
+                    assert!(v <= oc[i], "the global best is at least as good as every particle it was updated from");
+                    i += 1;
+                }
+                if filled {
+                    assert!(v <= og, "the global best never gets worse");
+                    let mut better = false;
+                    let mut i = 0;
+                    while i < n {
+                        better |= oc[i] < og;
+                        i += 1;
+                    }
+                    if !better {
+                        assert!(g.solution()[0] == 9.0 && v.to_bits() == og.to_bits(), "kept when no particle is strictly better");
+                    }
+                }
+            }
+            None => assert!(!filled && n == 0, "filled as soon as a particle exists"),
+        }
+    }
+    vcover!(true, "reached");
+    std::mem::forget(s);
+}
+/// @h tier=quick bound="1 particle, any previous global best (or none), all legal objectives" unwind=4 cost=5 mem=16 timeout=900
+#[cfg_attr(kani, kani::proof)]
+#[cfg_attr(kani, kani::unwind(4))]
+pub fn h_c18_global_best_1() {
+    global_best(1)
+}
+/// @h tier=thorough bound="2 particles, any previous global best (or none)" unwind=5 cost=9 mem=28 timeout=2400
+#[cfg_attr(kani, kani::proof)]
+#[cfg_attr(kani, kani::unwind(5))]
+pub fn h_c18_global_best_2() {
+    global_best(2)
+}
+
+// ---- velocity / position update ---------------------------------------------------------------------------------------------------
+
+const BIG: f64 = 1048576.0;
+
+/// One particle, one dimension. `c1`, `c2` concrete per harness (one-product variants); the stored
+/// inertia weight is symbolic and DIFFERENT from the constructor's weight.
+fn velocity(c1: f64, c2: f64, check_formula: bool) {
+    let (x, v, xp, xg, w) = (sym::f64(), sym::f64(), sym::f64(), sym::f64(), sym::f64());
+    sym::assume(x.abs() <= BIG && v.abs() <= BIG && xp.abs() <= BIG && xg.abs() <= BIG && w >= 0.0 && w <= 4.0);
+    let vmax = 2.0;
+    let c = match PVU::from_params(123.0, c1, c2, vmax) {
+        Ok(c) => c,
+        Err(_) => {
+            assert!(false, "legal parameters");
+            return;
+        }
+    };
+    let mut pops = Populations::<RealP>::new();
+    pops.push(vec![particle(x, 0.0)]);
+    let mut s: State<RealP> = State::new();
+    s.insert(InertiaWeight::<PVU>::new(w));
+    s.insert(ParticleVelocities::<Global>::new(vec![vec![v]]));
+    s.insert(BestParticles::<RealP, Global>::new(vec![particle(xp, 0.0)]));
+    s.insert(BestParticle::<RealP, Global>::new(Some(particle(xg, 0.0))));
+    s.insert(sym_random(2));
+    s.insert(pops);
+    let r = Component::<RealP>::execute(&c, &RealP::d1(-BIG, BIG), &mut s);
+    assert!(r.is_ok(), "the velocity update succeeds on a consistent swarm");
+    {
+        let vs = s.borrow::<ParticleVelocities<Global>>();
+        assert!(vs.len() == 1 && vs[0].len() == 1, "one velocity entry per particle and dimension");
+        let nv = vs[0][0];
+        assert!(nv >= -vmax && nv <= vmax, "after the update every velocity component lies within [-v_max, v_max]");
+        let p = s.populations();
+        assert!(p.current().len() == 1, "one particle");
+        let nx = p.current()[0].solution()[0];
+        assert!(nx.to_bits() == (x + nv).to_bits(), "each particle has moved by exactly its new velocity");
+        assert!(!p.current()[0].is_evaluated(), "a moved particle is unevaluated");
+        if check_formula && c1 == 0.0 && c2 == 0.0 {
+            let raw = w * v;
+            let want = if raw > vmax { vmax } else if raw < -vmax { -vmax } else { raw };
+            assert!(nv == want || (raw == 0.0 && nv == 0.0), "it is the STORED inertia weight that scales the old velocity");
+        }
+        assert!(s.borrow::<BestParticles<RealP, Global>>().len() == 1, "the personal-best collection keeps one entry per particle");
+    }
+    assert!(draws() == 2, "two uniform draws per coordinate");
+    vcover!(true, "reached");
+    std::mem::forget((s, c));
+}
+/// @h tier=thorough bound="1 particle x 1 dimension, c1 = c2 = 0 (inertia term only), magnitudes <= 2^20, stored weight in [0,4]" unwind=4 cost=9 mem=28 timeout=3600
+#[cfg_attr(kani, kani::proof)]
+#[cfg_attr(kani, kani::unwind(4))]
+pub fn h_c18_velocity_inertia_only() {
+    velocity(0.0, 0.0, true)
+}
+/// @h tier=thorough bound="1 particle x 1 dimension, c1 = 1.5, c2 = 0" unwind=4 cost=9 mem=28 timeout=3000
+#[cfg_attr(kani, kani::proof)]
+#[cfg_attr(kani, kani::unwind(4))]
+pub fn h_c18_velocity_c1() {
+    velocity(1.5, 0.0, false)
+}
+/// @h tier=thorough bound="1 particle x 1 dimension, full formula c1 = c2 = 1.5" unwind=4 cost=9 mem=28 timeout=3000
+#[cfg_attr(kani, kani::proof)]
+#[cfg_attr(kani, kani::unwind(4))]
+pub fn h_c18_velocity_full() {
+    velocity(1.5, 1.5, false)
+}
+
+/// @h tier=quick bound="size mismatch between particles and velocities is an error" unwind=4 cost=6 mem=16 timeout=900
+#[cfg_attr(kani, kani::proof)]
+#[cfg_attr(kani, kani::unwind(4))]
+pub fn h_c18_size_mismatch() {
+    let c = match PVU::from_params(1.0, 1.0, 1.0, 1.0) {
+        Ok(c) => c,
+        Err(_) => return,
+    };
+    let mut pops = Populations::<RealP>::new();
+    pops.push(vec![particle(sym::finite_f64(), 0.0)]);
+    let mut s: State<RealP> = State::new();
+    s.insert(InertiaWeight::<PVU>::new(1.0));
+    s.insert(ParticleVelocities::<Global>::new(Vec::new()));
+    s.insert(BestParticles::<RealP, Global>::new(vec![particle(0.0, 0.0)]));
+    s.insert(BestParticle::<RealP, Global>::new(Some(particle(0.0, 0.0))));
+    s.insert(sym_random(2));
+    s.insert(pops);
+    assert!(Component::<RealP>::execute(&c, &RealP::d1(-1.0, 1.0), &mut s).is_err(), "a velocity collection of the wrong size is reported as an error");
+    vcover!(true, "reached");
+    std::mem::forget((s, c));
+}
